@@ -263,3 +263,57 @@ func D_C16_2() string {
 	}
 	return parser.ZZSig(ast, false)
 }
+
+// ---- method filters over names that are prefixes of each other ------------------------------------
+
+const zzPrefixIDL = "struct Q1 {}\nstruct R1 {}\nstruct Q2 {}\nstruct R2 {}\nstruct Q3 {}\nstruct Q4 {}\n" +
+	"service Svc {\n  R1 Get(1: Q1 q)\n  R2 GetAll(1: Q2 q)\n  void Put(1: Q3 q)\n  void PutGet(1: Q4 q)\n}\n"
+
+// H_C16_prefix: a plain method name selects exactly that method (not the methods it is a prefix
+// of, nor the ones that are a prefix of it); a regexp selects every method it matches; the
+// struct-likes of the removed methods go, those of the kept ones stay.
+func H_C16_prefix(filter int) {
+	filters := []struct {
+		pat  string
+		want string
+	}{
+		{"Svc.Get", "Get"},
+		{"Svc.GetAll", "GetAll"},
+		{"Get", "Get"},
+		{"Svc.Get.*", "Get,GetAll"},
+		{"Svc.Put", "Put"},
+		{"Svc.PutGet", "PutGet"},
+		{"Svc.Put.*", "Put,PutGet"},
+	}
+	ft := filters[filter]
+	ast, err := parser.ParseString("p.thrift", zzPrefixIDL)
+	zzrt.Assert(err == nil, "model parses")
+	if _, err := semantic.NewChecker(semantic.Options{FixWarnings: true}).CheckAll(ast); err != nil {
+		panic("model rejected: " + err.Error())
+	}
+	if err := semantic.ResolveSymbols(ast); err != nil {
+		panic("model rejected: " + err.Error())
+	}
+	_, err = doTrimAST(ast, []string{ft.pat}, zzrt.Bool("force"), false, false, nil, nil)
+	zzrt.Assert(err == nil, "the trimmed IDL passes the semantic check")
+	var fns []string
+	for _, f := range ast.Services[0].Functions {
+		fns = append(fns, f.Name)
+	}
+	zzrt.Assert(strings.Join(fns, ",") == ft.want, "exactly the matching methods remain (names that are prefixes of each other): filter "+ft.pat)
+	needs := map[string][]string{"Get": {"Q1", "R1"}, "GetAll": {"Q2", "R2"}, "Put": {"Q3"}, "PutGet": {"Q4"}}
+	want := map[string]bool{}
+	for _, f := range fns {
+		for _, n := range needs[f] {
+			want[n] = true
+		}
+	}
+	got := map[string]bool{}
+	for _, s := range ast.Structs {
+		got[s.Name] = true
+	}
+	for _, n := range []string{"Q1", "R1", "Q2", "R2", "Q3", "Q4"} {
+		zzrt.Assert(got[n] == want[n], "a struct-like is kept iff a kept method needs it: "+n)
+	}
+	zzrt.Cover("end")
+}
